@@ -378,6 +378,19 @@ func init() {
 	// math/rand.Shuffle: modelled as the identity permutation (assumption A-ORDER: what is asserted does
 	// not depend on the order of the shuffled elements); natively the real shuffle runs
 	externals["math/rand.Shuffle"] = func(p *Path, fr *Frame, fn *ssa.Function, a []Value) Value {
+		if p.shuffleReal {
+			// Fisher-Yates exactly as math/rand does it, every swap index a fresh draw split into its values
+			p.res.Stubs["math/rand.Shuffle = Fisher-Yates over symbolic draws"] = true
+			n := int(p.concretize(a[0].(*Term), "Shuffle n"))
+			for i := n - 1; i > 0; i-- {
+				j := p.tt.Var(p.fresh("shuffle"), BV64)
+				p.inputs = append(p.inputs, InputRec{Name: j.Name, Kind: "internal"})
+				p.assume(p.tt.Cmp(OUle, j, p.tt.U64(uint64(i))))
+				jc := p.concretize(j, "Shuffle index")
+				p.callValue(fr, a[1], []Value{p.tt.I64(int64(i)), p.tt.I64(int64(jc))}, false)
+			}
+			return nil
+		}
 		p.res.Stubs["math/rand.Shuffle = identity (A-ORDER)"] = true
 		return nil
 	}
@@ -824,6 +837,9 @@ func (p *Path) intrinsic(fr *Frame, fn *ssa.Function, a []Value) (Value, bool) {
 		return nil, true
 	case "vx_concretize_rand": // every crypto/rand.Int draw is split into its possible values
 		p.concRand = true
+		return nil, true
+	case "vx_shuffle_real":
+		p.shuffleReal = true
 		return nil, true
 	case "vx_clock_free": // every Now() call returns a fresh, later instant
 		p.clockFree = true
